@@ -106,8 +106,8 @@ def threaded(pa, kwa, pb, kwb, order, jma="exact", jmb="exact"):
     tb = threading.Thread(target=runner, args=("B", pb, kwb, jmb))
     ta.start()
     tb.start()
-    ta.join(120)
-    tb.join(120)
+    ta.join(1200)
+    tb.join(1200)
     if ta.is_alive() or tb.is_alive():
         raise Machinery("scheduler deadlock")
     return out, gate.digests
@@ -332,7 +332,7 @@ def variants_job(spec):
 
 
 def schedules(ctx, cfg):
-    res = run_tlc(ctx, f"design:{cfg}", "Interleave", cfg, workers=1, timeout=600)
+    res = run_tlc(ctx, f"design:{cfg}", "Interleave", cfg, workers=1, timeout=3600)
     if not res["ok"]:
         raise Machinery("design run Interleave failed:\n" + res["out"][-2000:])
     return [row[1] for row in parse_printt(res["out"], "SCHED")]
